@@ -605,7 +605,9 @@ func (e *env) checkDirty(raw []byte, it *vh.Item, freshErr error, fresh *common.
 			continue
 		}
 		dg, dup := extract(numBig, m), m.CheckForDuplicateKeys() != nil
-		if it != nil {
+		// the model's answer depends on the bytes only: one dirty result per input goes
+		// through the Coq case file as well (all of them through the monitor below)
+		if it != nil && i == len(raw)%len(rs) {
 			e.cf.Add(fmt.Sprintf("CDec %s (Some (%s, %s))", it.Coq(), dg.coq(), vh.Bool(dup)), s)
 		}
 		enc, _ := cbor.Encode(m)
